@@ -1313,6 +1313,9 @@ struct TemplateCore {
                     ++loop_index;
                 }
             } else {
+                // An array has no keys: drop the key a previous loop left at this level.
+                loops_items_->Storage()[tag.Level].Key = StringView<Char_T>{};
+
                 while (loop_index < loop_size) {
                     LoopItem &item = loops_items_->Storage()[tag.Level];
                     item.Value     = loop_set->GetValue(loop_index);
